@@ -123,7 +123,7 @@ labels as siblings, statements before the first label untouched): `fix_switch_ca
 what the parser built, whose labelled items are *proved* to have the shape the refinement theorem
 needs (`StmtSkel.svals_shaped`) - and exactly the tokens of `st` are consumed.
 Nothing is assumed about the parser; braces move the scope stack at lex time (`View.lexScopes`). -/
-theorem statements_nest_as_the_grammar_says (st : S) (hwf : WFS st) (s : PState) (rest : List Tk)
+theorem statements_nest_as_the_grammar_says (st : S) (hwf : WFS env.ty st) (s : PState) (rest : List Tk)
     (hs : SeesT env s (st.flat ++ rest))
     (hel : st.openIf = true → ∀ k v r, rest = (k, v) :: r → k ≠ "ELSE") (F : Nat) (hF : st.fuel ≤ F) :
     ∃ s', run F .statement s = .ok (st.val s.idx) s' ∧ SeesT env s' rest ∧ s'.idx = s.idx + st.ntoks :=
@@ -145,7 +145,7 @@ example : ∃ s',
               .none]) s' ∧ (∃ env, SeesT env s' []) := by
   let st : S := .ifThen (.id "a") (.ifElse (.id "b") (.expr (.id "x"))
     (.block (.cons (.expr (.id "y")) (.cons (.while_ (.id "c") .brk) .nil))))
-  have hwf : WFS st := by
+  have hwf : WFS (fun _ => false) st := by
     refine .ifThen _ _ (.id _ _) (.ifElse _ _ _ (.id _ _) (.expr _ (.id _ _)) rfl ?_)
     exact .block _ (.cons _ _ (.expr _ (.id _ _)) (.cons _ _ (.while_ _ _ (.id _ _) .brk) .nil))
   have hs := ParenExpr.seesT_init [("IF", "if"), ("LPAREN", "("), ("ID", "a"), ("RPAREN", ")"), ("IF", "if"), ("LPAREN", "("), ("ID", "b"),
@@ -173,7 +173,7 @@ example : ∃ s',
   let st : S := .switch_ (.id "x") (.block (.cons (.expr (.id "a"))
     (.cons (.case_ (.id "p") (.case_ (.id "q") (.expr (.id "b"))))
     (.cons (.expr (.id "c")) (.cons (.default_ (.expr (.id "d"))) .nil)))))
-  have hwf : WFS st := by
+  have hwf : WFS (fun _ => false) st := by
     refine .switch_ _ _ (.id _ _) (.block _ (.cons _ _ (.expr _ (.id _ _)) (.cons _ _ ?_ (.cons _ _ (.expr _ (.id _ _))
       (.cons _ _ (.default_ _ (.expr _ (.id _ _))) .nil)))))
     exact .case_ _ _ (.id _ _) (.case_ _ _ (.id _ _) (.expr _ (.id _ _)))
@@ -201,7 +201,7 @@ example : ∃ s',
                   mk .Goto (tc 19) [.str "L"], .none]]]) s' ∧ (∃ env, SeesT env s' []) := by
   let st : S := .for_ none (some (.bin "LT" "<" (.id "i") (.id "n"))) (some (.post "PLUSPLUS" "++" (.id "i")))
     (.label "L" (.ifThen (.index (.id "a") (.id "i")) (.goto_ "L")))
-  have hwf : WFS st := by
+  have hwf : WFS (fun _ => false) st := by
     refine .for_ _ _ _ _ (by intro e h; cases h) ?_ ?_ (.label _ _ (.ifThen _ _ (.index _ _ _ (by omega) (.id _ _) (.id _ _)) (.goto_ _)))
     · intro e h; cases h; exact .bin _ 6 _ _ _ _ (by decide) (by omega) (.id _ _) (.id _ _)
     · intro e h; cases h; exact .post _ _ _ _ (by omega) (by decide) (.id _ _)
@@ -213,26 +213,86 @@ example : ∃ s',
     (by intro _ k v r h; cases h) 300 (by decide)
   exact ⟨s', hr, _, hs'⟩
 
-open PycModel.View PycModel.DeclParse PycModel.TransUnit in
-/-- **Declarations and statements of a function body appear in source order.** For every body
-`{ item ... item }` whose items are declarations (of `C03.declarations_parse_as_the_grammar_says`)
-and statements (of `statements_nest_as_the_grammar_says`) in any order and number,
+open PycModel.View PycModel.DeclParse PycModel.TransUnit PycModel.StmtSkel in
+/-- **Declarations and statements of a block appear in source order, at every nesting depth.**
+For every body `{ item ... item }` whose items are declarations (of
+`C03.declarations_parse_as_the_grammar_says`) and statements (of
+`statements_nest_as_the_grammar_says` - which themselves may be blocks with their own declarations
+and `for` loops with a declaration as first clause) in any order and number,
 `_parse_compound_statement` returns the `Compound` whose block items are the items' ASTs
 concatenated in source order (a declaration contributes one `Decl` per declared name, a statement
 its tree), and consumes exactly the tokens of the body. -/
-theorem block_items_in_source_order {env : Env} (l : List Item) (hw : ∀ it ∈ l, WFItem it)
-    (hty : ∀ x ∈ itemsNames l, env.ty x = false) (s : PState) (rest : List Tk)
-    (hs : SeesT env s (bodyFlat l ++ rest)) (F : Nat) (hF : itemsFuel l + 2 ≤ F) :
+theorem block_items_in_source_order {env : Env} (l : SL) (hw : WFSL env.ty l) (s : PState) (rest : List Tk)
+    (hs : SeesT env s (bodyFlat l ++ rest)) (F : Nat) (hF : l.fuel + 2 ≤ F) :
     ∃ s', run F .compoundStatement s = .ok (bodyVal s.idx l) s' ∧ SeesT env s' rest ∧
-      s'.idx = s.idx + itemsNtoks l + 2 :=
-  compound_ok l hw hty s rest hs F hF
+      s'.idx = s.idx + l.ntoks + 2 :=
+  compound_ok l hw s rest hs F hF
 
-open PycModel.TransUnit in
+/-- concatenation of block-item lists -/
+def _root_.PycModel.StmtSkel.SL.append : StmtSkel.SL → StmtSkel.SL → StmtSkel.SL
+  | .nil, b => b
+  | .cons s r, b => .cons s (r.append b)
+  | .consD dc r, b => .consD dc (r.append b)
+
+open PycModel.StmtSkel in
+theorem append_ntoks : ∀ (a b : SL), (a.append b).ntoks = a.ntoks + b.ntoks
+  | .nil, b => by simp [SL.append, SL.ntoks]
+  | .cons s r, b => by simp [SL.append, SL.ntoks, append_ntoks r b, Nat.add_assoc]
+  | .consD dc r, b => by simp [SL.append, SL.ntoks, append_ntoks r b, Nat.add_assoc]
+
+open PycModel.StmtSkel in
 /-- the block items are the concatenation of the items' values, in order -/
-theorem block_items_concat (n : Nat) (a b : List Item) :
-    itemsVals n (a ++ b) = itemsVals n a ++ itemsVals (n + itemsNtoks a) b := by
-  induction a generalizing n with
-  | nil => simp [itemsVals, itemsNtoks]
-  | cons it r ih => simp [itemsVals, itemsNtoks, ih, Nat.add_assoc]
+theorem block_items_concat : ∀ (n : Nat) (a b : SL),
+    SL.vals n (a.append b) = SL.vals n a ++ SL.vals (n + a.ntoks) b
+  | n, .nil, b => by simp [SL.vals, SL.ntoks, SL.append]
+  | n, .cons s r, b => by simp [SL.vals, SL.ntoks, SL.append, block_items_concat _ r b, Nat.add_assoc]
+  | n, .consD dc r, b => by simp [SL.vals, SL.ntoks, SL.append, block_items_concat _ r b, Nat.add_assoc]
+
+open PycModel.StmtSkel PycModel.View PycModel.FullExpr PycModel.DeclParse PycModel.DeclSkel PycModel.TransUnit in
+/-- non-vacuity, declarations at every depth:
+`{ int a ; { int b = a ; for ( int i = 0 ; i < b ; i ++ ) a = i ; } }` -/
+example : ∃ s',
+    run 400 .compoundStatement
+      (initState ([("LBRACE", "{"), ("INT", "int"), ("ID", "a"), ("SEMI", ";"), ("LBRACE", "{"), ("INT", "int"), ("ID", "b"),
+                   ("EQUALS", "="), ("ID", "a"), ("SEMI", ";"), ("FOR", "for"), ("LPAREN", "("), ("INT", "int"), ("ID", "i"),
+                   ("EQUALS", "="), ("INT_CONST_DEC", "0"), ("SEMI", ";"), ("ID", "i"), ("LT", "<"), ("ID", "b"), ("SEMI", ";"),
+                   ("ID", "i"), ("PLUSPLUS", "++"), ("RPAREN", ")"), ("ID", "a"), ("EQUALS", "="), ("ID", "i"), ("SEMI", ";"),
+                   ("RBRACE", "}"), ("RBRACE", "}")].map (fun t => SEv.tok t.1 t.2) ++ [.eof]))
+      = .ok (mk .Compound (tc 0) [.list [
+              mk .Decl (tc 2) [.str "a", .list [], .list [], .list [], .list [],
+                mk .TypeDecl (tc 2) [.str "a", .list [], .none, mk .IdentifierType (tc 1) [.list [.str "int"]]], .none, .none],
+              mk .Compound (tc 4) [.list [
+                mk .Decl (tc 6) [.str "b", .list [], .list [], .list [], .list [],
+                  mk .TypeDecl (tc 6) [.str "b", .list [], .none, mk .IdentifierType (tc 5) [.list [.str "int"]]],
+                  ParenExpr.idNode 8 "a", .none],
+                mk .For (tc 10) [
+                  mk .DeclList (tc 10) [.list [
+                    mk .Decl (tc 13) [.str "i", .list [], .list [], .list [], .list [],
+                      mk .TypeDecl (tc 13) [.str "i", .list [], .none, mk .IdentifierType (tc 12) [.list [.str "int"]]],
+                      mk .Constant (tc 15) [.str "int", .str "0"], .none]]],
+                  mk .BinaryOp (tc 17) [.str "<", ParenExpr.idNode 17 "i", ParenExpr.idNode 19 "b"],
+                  mk .UnaryOp (tc 21) [.str "p++", ParenExpr.idNode 21 "i"],
+                  mk .Assignment (tc 24) [.str "=", ParenExpr.idNode 24 "a", ParenExpr.idNode 26 "i"]]]]]]) s' ∧
+        (∃ env, SeesT env s' []) := by
+  let dA : Dcl := { specs := [("INT", "int")], first := { d := .name "a", init := none }, more := [] }
+  let dB : Dcl := { specs := [("INT", "int")], first := { d := .name "b", init := some (.id "a") }, more := [] }
+  let dI : Dcl := { specs := [("INT", "int")], first := { d := .name "i", init := some (.const "INT_CONST_DEC" "0" "int") }, more := [] }
+  let l : SL := .consD dA (.cons (.block (.consD dB (.cons
+    (.forD dI (some (.bin "LT" "<" (.id "i") (.id "b"))) (some (.post "PLUSPLUS" "++" (.id "i")))
+      (.expr (.assign "EQUALS" "=" (.id "a") (.id "i")))) .nil))) .nil)
+  have hsp : SpecToks false [("INT", "int")] := by simp [SpecToks, typeSpecSimple]
+  have hsv : SpecVals [("INT", "int")] := by
+    intro t ht; simp only [List.mem_singleton] at ht; subst ht; exact ⟨by decide, by decide⟩
+  have hA : WFDcl dA := ⟨hsp, hsv, rfl, ⟨.name _, by intro e h; cases h⟩, by intro it h; cases h⟩
+  have hB : WFDcl dB := ⟨hsp, hsv, rfl, ⟨.name _, by intro e h; cases h; exact .id _ _⟩, by intro it h; cases h⟩
+  have hI : WFDcl dI := ⟨hsp, hsv, rfl, ⟨.name _, by intro e h; cases h; exact .const _ _ _ _ (by decide)⟩, by intro it h; cases h⟩
+  have hw : WFSL (fun _ => false) l := by
+    refine .consD _ _ hA (fun _ _ => rfl) (.cons _ _ (.block _ (.consD _ _ hB (fun _ _ => rfl) (.cons _ _ ?_ .nil))) .nil)
+    refine .forD _ _ _ _ hI (fun _ _ => rfl) ?_ ?_ (.expr _ (.assign _ _ _ _ _ (by omega) (by decide) (.id _ _) (.id _ _)))
+    · intro e h; cases h; exact .bin _ 6 _ _ _ _ (by decide) (by omega) (.id _ _) (.id _ _)
+    · intro e h; cases h; exact .post _ _ _ _ (by omega) (by decide) (.id _ _)
+  have hs := ParenExpr.seesT_init (bodyFlat l ++ [])
+  obtain ⟨s', hr, hs', _⟩ := compound_ok l hw _ [] hs 400 (by decide)
+  exact ⟨s', hr, _, hs'⟩
 
 end PycModel.C05
